@@ -88,7 +88,7 @@ def snapshot(srv):
 
 REPLAY_HEAD = '''# replay of a counterexample found by /verif (property C18) on the real rpyc
 import sys, socket, logging
-sys.path.insert(0, "/repo")
+sys.path.insert(0, __import__("os").environ.get("VERIF_REPO", "/repo"))
 from rpyc.utils import registry
 from rpyc.core import brine
 class Clock(object):
